@@ -194,7 +194,7 @@ fn keep_ops(ops: &[Op], keep: &[usize]) -> Vec<Op> {
                     kept_idx.push(i);
                 }
             }
-            Op::Open { path, .. } | Op::Change { path, .. } => {
+            Op::Open { path, .. } | Op::Change { path, .. } | Op::Change2 { path, .. } => {
                 open.insert(path);
                 out.push(ops[i].clone());
                 kept_idx.push(i);
@@ -310,7 +310,7 @@ fn minimize_server(ctx: &mut Ctx, scenario: Scenario, first: CaseReport) -> (Sce
             break;
         }
         let text = match &best_sc.ops[i] {
-            Op::Open { text, .. } | Op::Change { text, .. } | Op::DiskWrite { text, .. } => text.clone(),
+            Op::Open { text, .. } | Op::Change { text, .. } | Op::Change2 { text, .. } | Op::DiskWrite { text, .. } => text.clone(),
             _ => continue,
         };
         let sc0 = best_sc.clone();
@@ -319,7 +319,7 @@ fn minimize_server(ctx: &mut Ctx, scenario: Scenario, first: CaseReport) -> (Sce
         let shrunk = shrink_text(&text, &mut |t: &str| {
             let mut sc = sc0.clone();
             match &mut sc.ops[i] {
-                Op::Open { text, .. } | Op::Change { text, .. } | Op::DiskWrite { text, .. } => *text = t.to_string(),
+                Op::Open { text, .. } | Op::Change { text, .. } | Op::Change2 { text, .. } | Op::DiskWrite { text, .. } => *text = t.to_string(),
                 _ => {}
             }
             // request offsets may now point past the end: clamp
@@ -335,7 +335,7 @@ fn minimize_server(ctx: &mut Ctx, scenario: Scenario, first: CaseReport) -> (Sce
         if let Some((t, p, r)) = last_ok {
             if t == shrunk {
                 match &mut best_sc.ops[i] {
-                    Op::Open { text, .. } | Op::Change { text, .. } | Op::DiskWrite { text, .. } => *text = t,
+                    Op::Open { text, .. } | Op::Change { text, .. } | Op::Change2 { text, .. } | Op::DiskWrite { text, .. } => *text = t,
                     _ => {}
                 }
                 clamp_offsets(&mut best_sc);
@@ -380,7 +380,7 @@ fn clamp_offsets(sc: &mut Scenario) {
     let mut texts: std::collections::BTreeMap<String, String> = Default::default();
     for op in sc.ops.iter_mut() {
         match op {
-            Op::Open { path, text } | Op::Change { path, text } => {
+            Op::Open { path, text } | Op::Change { path, text } | Op::Change2 { path, text, .. } => {
                 texts.insert(path.clone(), text.clone());
             }
             Op::Request { path, offset, .. } => {
